@@ -20,6 +20,8 @@ struct Before {
     esp_valid: Vec<bool>,
     allocated_pages: u64,
     allocated_set: BTreeSet<(u32, u32)>,
+    /// the shared tracker's registrations: live reads (id -> count), savepoints, pending commits
+    tracker: String,
 }
 
 fn probe_savepoints(w: &mut World) -> R<Vec<bool>> {
@@ -47,7 +49,13 @@ fn capture(w: &mut World) -> R<Before> {
     let esp_valid = probe_savepoints(w)?;
     let snap = w.db().verif_snapshot();
     let allocated_set = allocated_set(&snap).map_err(Fail::Storage)?;
+    let t = &snap.tracker;
+    let tracker = format!(
+        "live reads {:?}; valid savepoints {:?}; persistent savepoints {:?}; pending non-durable commits {:?}; unprocessed {:?}",
+        t.live_read_transactions, t.valid_savepoints, t.persistent_savepoints, t.pending_non_durable_commits, t.unprocessed_freed_non_durable_commits
+    );
     Ok(Before {
+        tracker,
         contents,
         psp,
         esp_valid,
@@ -77,6 +85,12 @@ fn compare(b: &Before, a: &Before, how: &str) -> R<()> {
         "after a transaction ended by {how} stats().allocated_pages() went from {} to {}",
         b.allocated_pages,
         a.allocated_pages
+    );
+    ensure!(
+        b.tracker == a.tracker,
+        "after a transaction ended by {how} the tracker still holds registrations of the abandoned work: before [{}] after [{}]",
+        b.tracker,
+        a.tracker
     );
     if b.allocated_set != a.allocated_set {
         let extra: Vec<_> = a.allocated_set.difference(&b.allocated_set).take(4).collect();
@@ -297,9 +311,16 @@ fn one_case(seed: u64, case: u64, trace_on: bool) -> (Out, Option<Fail>) {
         compare(&before, &after, how)?;
         let mut o6 = dummy_c06(&w);
         acct_step(&w, &mut o6)?;
-        out.acct = o6.last;
+        out.acct = o6.last.clone();
         // and the model still agrees
         w.verify_visible()?;
+        // "no storage space remains consumed": with every reader and savepoint gone, what later
+        // commits free must be reclaimed -- nothing of the abandoned transaction may still pin it
+        if w.rng.chance(1, 2) {
+            let plan = w.plan();
+            w.run_txn(&plan)?;
+        }
+        crate::checks::c06::drain(&mut w, &mut o6)?;
         Ok(())
     })();
     w.close();
